@@ -2,7 +2,7 @@ SPECIFICATION EnumSpec
 CONSTANTS
   Minerals = {"a", "b", "c", "d"}
   Files = {"f1"}
-  Postfixes <- PfFamilyQ
+  Postfixes <- PfFamilyT
   Configs = {}
   Seeds = {}
   Textures = {}
